@@ -146,6 +146,7 @@ def gen_case(rng: random.Random, pid: str, uid: str) -> dict:
         # any ordered subset of (tm, state_tm, initial_call), e.g. (self, initial_call, tm)
         for st in states:
             st["sig"] = rng.choice(SUBSETS)
+            st["sig_defaults"] = rng.random() < 0.15        # the parameters are declared with default values
     # ---- class layout: single class, or base + sub with additions and overrides
     classes = [{"name": "K0", "bases": [], "states": states}]
     if rng.random() < 0.3 and len(states) >= 2:
@@ -302,14 +303,25 @@ def effective_shape(case):
 _FN_CACHE = {}
 
 
-def _make_fn(name, sig):
-    key = (name, tuple(sig))
+class _NotFilled:
+    """Default value of a declared parameter: seen by the state function only if the framework did not pass the argument."""
+
+    def __repr__(self):
+        return "<parameter not filled in>"
+
+
+_NOT_FILLED = _NotFilled()
+
+
+def _make_fn(name, sig, defaults=False):
+    key = (name, tuple(sig), defaults)
     f = _FN_CACHE.get(key)
     if f is None:
-        params = ", ".join(["self"] + list(sig))
+        # (defaults: `def fire(self, tm=None, initial_call=False)` - legal Python; the framework fills the parameters all the same)
+        params = ", ".join(["self"] + [f"{p}=_NOT_FILLED" if defaults else p for p in sig])
         d = ", ".join(f"'{p}': {p}" for p in sig)
         src = f"def {name}({params}):\n    _vf_body(self, '{name}', {{{d}}})\n"
-        ns = {"_vf_body": _vf_body}
+        ns = {"_vf_body": _vf_body, "_NOT_FILLED": _NOT_FILLED}
         exec(src, ns)
         f = ns[name]
         _FN_CACHE[key] = f
@@ -356,7 +368,7 @@ def build_class(case, base_cls, suffix=""):
     for c in case["classes"]:
         body = {}
         for s in c["states"]:
-            f = _make_fn(s["name"], s["sig"])
+            f = _make_fn(s["name"], s["sig"], bool(s.get("sig_defaults")))
             f.__doc__ = s.get("doc")
             if s["kind"] == "default":
                 obj = default_state(f)
@@ -1525,6 +1537,8 @@ def run_shard(spec):
             acc.ev(k, n)
         if case.get("verbose"):
             acc.ev("verbose-logging-on")
+        if any(s_.get("sig_defaults") for c_ in case["classes"] for s_ in c_["states"]):
+            acc.ev("state-parameters-declared-with-default-values")
         if pid == "C03":
             for s in d.eff.values():
                 sigs_seen.add((s["kind"], tuple(s["sig"])))
